@@ -943,6 +943,26 @@ func (w *worldExec) decideOne(label string, c *CheckSpec, useHook bool) decision
 			allLoaded = false
 		}
 	}
+	// completeness needs "all delegations loadable", which is a fact about the store, not about
+	// which of them the implementation chose to ask for: with no loader fault configured, a proof
+	// is loadable iff the executor's store holds it
+	if len(c.LFaults) == 0 && len(spec.Prf) > 0 {
+		allLoaded = true
+		for i, l := range spec.Prf {
+			a, ok := w.outbox[l]
+			if !ok || a.kind != "dlg" {
+				allLoaded = false
+				break
+			}
+			if d, err := w.store.GetDelegation(mustCID(a.cid)); err != nil || d == nil {
+				allLoaded = false
+				break
+			}
+			if dl[i] == nil {
+				dl[i] = a.dspec
+			}
+		}
+	}
 	margs := spec.Args
 	if useHook {
 		margs = hookedArgs(c, spec.Args)
